@@ -44,7 +44,7 @@ pub struct Plan {
 }
 
 pub fn plan(args: &Args, n_corpus: usize) -> Plan {
-    let n = args.budget("inputs", 2000, 40_000) as usize;
+    let n = args.budget("inputs", 2000, 30_000) as usize;
     let seed = args.seed;
     let thorough = args.thorough();
     let mut specs: Vec<Json> = vec![];
@@ -823,8 +823,12 @@ pub fn main(args: Args) {
     ));
     run.assume("the CLI runs analysis and emission on its 8 MiB main thread; the language server runs the same passes on a 16 MiB thread: cases run on 8 MiB");
     run.assume("Emitter::emit is run whenever the analyzer passes returned (with or without error diagnostics); `veryl build` itself stops before emission when errors exist, which the violation text states");
-    run.assume("a CPU-time overrun or an allocation failure under RLIMIT_AS is a suspect: violation only after 3 solitary reproductions with 600 s CPU each (10x the nominal 60 s case budget; 30 s makes a suspect) and 3x the address space, otherwise inconclusive for that case");
+    run.assume("a CPU-time overrun or an allocation failure under RLIMIT_AS is a suspect: violation only after 3 solitary reproductions with 600 s CPU each (10x the nominal 60 s case budget; 30 s makes a suspect) and 2x the address space, otherwise inconclusive for that case");
 
+    let mut args = args;
+    if let Some(j) = args.get("jobs").and_then(|x| x.parse::<usize>().ok()) {
+        args.jobs = j.max(1);
+    }
     let corpus = Arc::new(vcommon::corpus::all_veryl());
     let plan = Arc::new(plan(&args, corpus.len()));
     let exe = std::env::current_exe().expect("current_exe");
@@ -960,7 +964,10 @@ pub fn main(args: Args) {
                 if let Some(pr) = PanicRec::from_json(&p["panic"]) {
                     run2.count("panics_observed", 1);
                     let mut e = pan2.lock().unwrap();
-                    let key = pr.signature();
+                    // emitter panics after error diagnostics are kept apart: they must not hide a
+                    // witness of the same site on an input the analyzer accepted
+                    let after_errors = p["stage"] == "emit" && obs["errors"].as_u64().unwrap_or(0) > 0;
+                    let key = if after_errors { format!("{}|after_errors", pr.signature()) } else { pr.signature() };
                     let len = d["len"].as_u64().unwrap_or(u64::MAX);
                     match e.get_mut(&key) {
                         Some(ent) => {
@@ -1009,7 +1016,8 @@ pub fn main(args: Args) {
     let emit_after_errors_is_violation = args.get("emit_after_errors") == Some("violation");
     let mut sites: Vec<Json> = vec![];
     let mut emitter_sites_after_errors: Vec<Json> = vec![];
-    for (sig, (i, stage, p, d, count)) in panics.lock().unwrap().iter() {
+    for (key, (i, stage, p, d, count)) in panics.lock().unwrap().iter() {
+        let sig = &key.trim_end_matches("|after_errors").to_string();
         let sources = sources_from_json(&d["sources"]);
         let limits = d["limits"].as_str().unwrap_or("default");
         let had_errors = d["obs"]["errors"].as_u64().unwrap_or(0) > 0;
@@ -1127,15 +1135,15 @@ pub fn main(args: Args) {
             if *resource {
                 c1.cpu_budget_s = decide_budget;
                 c1.wall_kill_s = c1.cpu_budget_s * 6.0;
-                c1.as_limit = spec.as_limit * 3;
+                c1.as_limit = spec.as_limit * 2;
             }
             (c1, s.i)
         })
         .collect();
-    // deaths run side by side; resource suspects may each need many GiB: four at a time
+    // deaths run side by side; resource suspects may each need several GiB: six processes at a time
     let n_deaths = chosen.iter().filter(|c| !c.4).count();
     let mut outs = sub::confirm_parallel(&items[..n_deaths], 3, args.jobs);
-    outs.extend(sub::confirm_parallel(&items[n_deaths..], 3, 4));
+    outs.extend(sub::confirm_parallel(&items[n_deaths..], 3, 6));
     let t_confirm = run_start.elapsed().as_secs_f64();
     let mut unresolved = 0u64;
     let mut confirmed: Vec<usize> = vec![];
